@@ -23,7 +23,7 @@ META = {
             "ShmAllocator over a real SharedMemory segment (1 unit = 64 bytes, MAX_ALLOCS lowered to the model bound); "
             "the recorded real traces (return values + header table after every operation) are validated by TLC "
             "against ShmAllocTrace and judged clause by clause with ShmTable!Conforms. Random long traces on a 1 MiB "
-            "region and the shipped 4094-entry limit are validated the same way. Second clause: ShmWrite.tla "
+            "region, the shipped 4094-entry limit, and a two-handle leg (ShmPeers.tla: creator + attached peer on one segment, every (table, staleness of the acting handle, op, handle) class) are validated the same way. Second clause: ShmWrite.tla "
             "enumerates schema-shape x rows x placement classes (single writes between live neighbours / canaries) and "
             "write sequences (2-3 consecutive writes on one segment whose schemas are equal up to metadata, or whose nested "
             "dictionary grows, in the orders up/down/up_down/down_up/same); TLC judges for every write bytes_written <= "
@@ -75,6 +75,9 @@ class RealAllocator:
     def table(self) -> list[dict]:
         return header_table(self.buf, self.H)
 
+    def reset(self) -> None:
+        self.alloc.reset()
+
     def do_alloc(self, n: int) -> int:
         try:
             r = self.alloc.allocate(n)
@@ -99,16 +102,72 @@ class RealAllocator:
             self.seg.unlink()
 
 
+class PeerAllocators(RealAllocator):
+    """Two handles on ONE real segment: the creator's ShmSegment and a peer obtained with ShmSegment.attach (its own
+    mapping, its own ShmAllocator object).  use(h) selects which handle performs the next operation.  The table is
+    read back with the independent struct reader through *both mappings*; the handles' own methods are never used
+    for observation (a read through a handle would refresh whatever that handle remembers and hide staleness)."""
+
+    def __init__(self, dbytes: int, max_allocs: int | None) -> None:
+        super().__init__(dbytes, max_allocs)
+        S = self.S
+        want = S.HEADER_SIZE + dbytes
+        self.peer = S.ShmSegment.attach(self.seg.name, self.seg.size, track=False)
+        self.peer_buf = self.peer.buf
+        peer_alloc = self.peer.allocator if self.peer.size == want and self.seg.size == want else S.ShmAllocator(self.peer_buf, want)
+        self.handles = {1: self.alloc, 2: peer_alloc}
+        self.mapping_mismatch = 0
+
+    def use(self, h: int) -> None:
+        self.alloc = self.handles[h]
+
+    def reset(self) -> None:
+        # both handles start from the empty table, each through its own object
+        self.handles[1].reset()
+        self.handles[2].reset()
+
+    def table(self) -> list[dict]:
+        t1 = header_table(self.buf, self.H)
+        t2 = header_table(self.peer_buf, self.H)
+        if t1 != t2:
+            self.mapping_mismatch += 1
+        return t1
+
+    def close(self) -> None:
+        self.handles = {}
+        self.peer_buf = None
+        try:
+            self.peer.close()
+        finally:
+            super().close()
+
+
+def _fn(f, h: int):
+    return f[h - 1] if isinstance(f, list) else f[h] if h in f else f[str(h)]
+
+
+def stale_class(state: dict, h: int) -> str:
+    """ShmPeers!Staleness(h) evaluated on a dumped model state."""
+    if _fn(state["vsame"], h):
+        return "fresh"
+    return "stale_same_count" if _fn(state["vlen"], h) == len(state["tbl"]) else "stale_other_count"
+
+
 def _event(op: str, n: int, ret: int, tbl: list[dict], chk: bool = True) -> dict:
     return {"op": op, "n": n, "ret": ret, "chk": chk, "tbl": tbl}
 
 
-def replay_path(ra: RealAllocator, beh: list[dict], ctx: Ctx, drift: list) -> dict:
-    ra.alloc.reset()
+def replay_path(ra, beh: list[dict], ctx: Ctx, drift: list) -> dict:
+    """ra: RealAllocator, or PeerAllocators (then every step is performed by the handle the model names in `who`)."""
+    peers = isinstance(ra, PeerAllocators)
+    ra.reset()
     evs = []
     pre = []
     for step in beh:
         last = step["state"]["last"]
+        h = step["state"]["who"] if peers else 0
+        if peers:
+            ra.use(h)
         if last["op"] == "alloc":
             n = last["n"] * UNIT
             ret = ra.do_alloc(n)
@@ -118,8 +177,8 @@ def replay_path(ra: RealAllocator, beh: list[dict], ctx: Ctx, drift: list) -> di
             ret = ra.do_free(n)
             want_ret = 0
         tbl = ra.table()
-        ctx.case([pre, last["op"], n])
-        evs.append(_event(last["op"], n, ret, tbl))
+        ctx.case([pre, last["op"], n] + ([h, stale_class(step["pre"], h)] if peers else []))
+        evs.append({**_event(last["op"], n, ret, tbl), **({"h": h} if peers else {})})
         model_tbl = [{"off": e["off"] * UNIT, "len": e["len"] * UNIT} for e in step["state"]["tbl"]]
         if ret != want_ret or tbl != model_tbl:
             # the real allocator left the model's path: the rest of the path is no longer a script of valid
@@ -179,7 +238,7 @@ def settle(ctx: Ctx, leg: str, traces: list[dict], accepted: list[bool], bad, si
         badset[idx] = clauses
         t = traces[idx]
         for cl in clauses:
-            ctx.violation(cl, {"leg": leg, **sig_extra, "ops": [[e["op"], e["n"]] for e in t["evs"]][:12]},
+            ctx.violation(cl, {"leg": leg, **sig_extra, "ops": [[e["op"], e["n"]] + ([e["h"]] if "h" in e else []) for e in t["evs"]][:12]},
                           {"trace": t if len(json.dumps(t)) < 20000 else "(large)"})
     n_acc = sum(1 for a in accepted if a)
     ctx.traces_validated += n_acc
@@ -250,6 +309,9 @@ def run_allocator(ctx: Ctx, wd) -> None:
         bad = judge_traces(ctx, traces_b, acc, 5 * UNIT, 3)
         settle(ctx, "paths", traces_b, acc, bad, {"D": 5 * UNIT, "max_allocs": 3})
 
+    # ---- leg P: the same table operated through two handles (creator + attached peer), lockstep
+    peer_leg(ctx, wd, drift)
+
     # ---- leg C: random long traces, arbitrary byte sizes, 1 MiB region
     dbig, mbig = 1 << 20, 12
     ntr, nops = (24, 50) if quick else (160, 120)
@@ -270,6 +332,48 @@ def run_allocator(ctx: Ctx, wd) -> None:
         limit_leg(ctx, wd)
     if drift:
         ctx.extra["python_side_model_mismatch_examples"] = drift
+
+
+def peer_leg(ctx: Ctx, wd, drift: list) -> None:
+    consts = {"D": 4, "MaxAllocs": 2, "MaxReq": 5} if ctx.quick else {"D": 5, "MaxAllocs": 3, "MaxReq": 6}
+    cfg = tlc.render_cfg(init_next=("PInit", "PNext"), constants={**consts, "FirstFit": True, "Handles": tlc.Raw("{1, 2}")},
+                         invariants=["Sorted", "Disjoint", "InRegion", "Bounded", "ViewSound"],
+                         properties=["Completeness", "AllocRecorded", "FreeExact", "CompletenessT", "AllocRecordedT"])
+    r, g = graph.dump_graph(wd, "ShmPeers", cfg, name="g_peers", workers=4)
+    ctx.add_tlc("ShmPeers:two-handles", r)
+    tlc.require_ok(r, "ShmPeers (two handles) invariants/step clauses")
+
+    def key(s, lab, d):
+        h = d["who"]
+        return (json.dumps(s["tbl"]), stale_class(s, h), d["last"]["op"], d["last"]["n"], h)
+
+    paths = g.edge_cover_paths(ctx.rng, key=key)
+    classes = {key(g.state(u), None, g.state(v)) for u, es in g.out.items() for _, v in es}
+    covered = {key(g.state(a), None, g.state(b)) for n, _ in paths for a, b in zip(n, n[1:])}
+    if classes - covered:
+        raise MachineryError("two-handle edge cover incomplete")
+    by_stale: dict = {}
+    for c in classes:
+        by_stale[c[1]] = by_stale.get(c[1], 0) + 1
+    dbytes = consts["D"] * UNIT
+    ra = PeerAllocators(dbytes, consts["MaxAllocs"])
+    try:
+        traces = []
+        for nodes, labels in paths:
+            beh = g.path_to_behaviour(nodes, labels)
+            for st, src in zip(beh, nodes):
+                st["pre"] = g.state(src)
+            traces.append(replay_path(ra, beh, ctx, drift))
+        mism = ra.mapping_mismatch
+    finally:
+        ra.close()
+    ctx.extra["two_handle_leg"] = {"graph_states": len(g.raw), "graph_edges": g.n_edges, "classes (table, staleness of acting handle, op, arg, "
+                                   "handle)": len(classes), "classes_by_staleness": by_stale, "paths": len(paths),
+                                   "operations": sum(len(t["evs"]) for t in traces), "mappings_disagreed": mism}
+    ctx.sample({"leg": "peers", "first_trace": traces[0]["evs"][:3]})
+    acc = validate_traces(ctx, wd, traces, dbytes, consts["MaxAllocs"], "peers")
+    bad = judge_traces(ctx, traces, acc, dbytes, consts["MaxAllocs"])
+    settle(ctx, "peers", traces, acc, bad, {"D": dbytes, "max_allocs": consts["MaxAllocs"]})
 
 
 def random_trace(ra: RealAllocator, ctx: Ctx, nops: int, dbytes: int) -> dict:
